@@ -241,8 +241,9 @@ def run_one(tape, opts):
         for t in sched.threads:
             if t.exc is not None:
                 out.violate("thread-died", type(t.exc).__name__, f"{t.name}: {t.exc!r}")
-        if sem.value != 1:
-            out.violate("semaphore-held", f"value={sem.value}", f"after the run the semaphore count is {sem.value} (holder {sem.holder}); faults fired {faults.fired}")
+        if sem.value != 1 or sem.max_value > 1:
+            out.violate("semaphore-held" if sem.value < 1 else "semaphore-over-released", f"value={sem.value}",
+                        f"after the run the semaphore count is {sem.value}, it peaked at {sem.max_value} (limit 1; holder {sem.holder}); faults fired {faults.fired}")
         _check_log(events, model, bool(faults.fired), out)
     # ------------------------------------------------------------------ accounting
     for m, k in faults.fired:
